@@ -632,10 +632,29 @@ impl<'a> Searcher<'a> {
                                 }
 
                                 // Check the path against the filters
+                                // libgit2 wants a path inside the work tree: the entry as typed
+                                // ("./a.log", or relative to a working directory below the work
+                                // tree root) is made absolute through its canonical parent, without
+                                // resolving the entry itself if it is a symbolic link
+                                #[cfg(feature = "git")]
+                                let git_path = match (path.parent(), path.file_name()) {
+                                    (Some(parent), Some(name)) => {
+                                        let parent = if parent.as_os_str().is_empty() {
+                                            Path::new(".")
+                                        } else {
+                                            parent
+                                        };
+                                        match fs::canonicalize(parent) {
+                                            Ok(parent) => parent.join(name),
+                                            _ => path.clone(),
+                                        }
+                                    }
+                                    _ => path.clone(),
+                                };
                                 #[cfg(feature = "git")]
                                 let pass_gitignore = !apply_gitignore
                                     || !(git_repository.is_some() &&
-                                    git_repository.unwrap().is_path_ignored(&path)
+                                    git_repository.unwrap().is_path_ignored(&git_path)
                                         .unwrap_or(false));
                                 #[cfg(not(feature = "git"))]
                                 let pass_gitignore = true;
